@@ -1242,7 +1242,7 @@ func TestVerifC12Child(t *testing.T) {
 		t.Skip("child only")
 	}
 	// address space limit: an allocation the file asks for beyond this kills this process, not the machine
-	lim := uint64(3 << 30)
+	lim := uint64(6 << 30)
 	syscall.Setrlimit(syscall.RLIMIT_AS, &syscall.Rlimit{Cur: lim, Max: lim})
 	debug.SetMaxStack(256 << 20)
 	debug.SetGCPercent(50)
@@ -1279,6 +1279,11 @@ func TestVerifC12Child(t *testing.T) {
 			outcome = "panic"
 		}
 		r := c12Res{I: i, Outcome: outcome, Detail: detail, Alloc: ms1.TotalAlloc - ms0.TotalAlloc, Size: len(data), Ms: ms}
+		if r.Alloc > 32<<20 {
+			// a job that allocated a lot (within its bound): give the memory back before the next one, so that garbage of
+			// several such jobs cannot add up to the address-space limit
+			debug.FreeOSMemory()
+		}
 		b, _ := json.Marshal(r)
 		resf.Write(append(b, '\n'))
 	}
